@@ -190,6 +190,7 @@ theorem step_vals (w : World) (op : Op) : ValsKept w (step w op).1 (assigns op) 
       · exact doSetInstCore_vals w i x v
     | cls k => exact ValsKept.of_insts (doSetCls_effect w k x v).instsEq _
   | mutVal t x n => exact ValsKept.of_insts (doMutVal_frame w t x n).2.1 _
+  | mutItem t x i n => exact ValsKept.of_insts (doMutItem_frame w t x i n).2.1 _
   | access i x => exact doAccess_vals w i x
   | slotSet t x s => exact doSlotSet_vals w t x s
   | slotMut t x m => exact doSlotMut_vals w t x m
@@ -287,6 +288,23 @@ theorem doMutVal_cls_touch (w : World) (k : ClsId) (x : Name) (n : Int) :
     simp [hr] at hread
     exact resolve_held hr c (by simp [PObj.cells, hread, Val.cells])
 
+theorem doMutItem_cls_touch (w : World) (k : ClsId) (x : Name) (i : Nat) (n : Int) :
+    ClsTouch w (doMutItem w (.cls k) x i n).1 := by
+  intro c _ hne
+  apply Classical.byContradiction
+  intro hnh
+  apply hne
+  apply (doMutItem_frame w (.cls k) x i n).2.2.2 c
+  intro cs hread hc
+  apply hnh
+  simp only [World.read, World.getCls] at hread
+  cases hr : w.resolve k x with
+  | none => simp [hr] at hread
+  | some kP =>
+    obtain ⟨k', P⟩ := kP
+    simp [hr] at hread
+    exact resolve_held hr c (by simp [PObj.cells, hread, Val.cells]; exact Or.inl (List.mem_of_getElem? hc))
+
 /-- `K.x = v`: the only existing container whose contents may change is the `objects` list of the class
 Parameter that serves the assignment (a `Selector` without `check_on_set` appends the value) -/
 theorem doSetClsCore_touch (w : World) (k : ClsId) (x : Name) (lit : Lit) :
@@ -341,6 +359,7 @@ def classOp : Op → Bool
   | .mkClass .. => true
   | .setVal (.cls _) .. => true
   | .mutVal (.cls _) .. => true
+  | .mutItem (.cls _) .. => true
   | .slotSet (.cls _) .. => true
   | .slotMut (.cls _) .. => true
   | .sharedFail => true
@@ -364,6 +383,10 @@ theorem step_cls_touch (w : World) (op : Op) (hc : classOp op = true) : ClsTouch
     cases t with
     | inst i => simp [classOp] at hc
     | cls k => exact doMutVal_cls_touch w k x n
+  | mutItem t x i n =>
+    cases t with
+    | inst j => simp [classOp] at hc
+    | cls k => exact doMutItem_cls_touch w k x i n
   | slotSet t x s =>
     cases t with
     | inst i => simp [classOp] at hc
